@@ -77,6 +77,14 @@ def cases(T):
         for k in range(n):
             add('O1.cofactor_row%d.r%d' % (n, k), 'w_cofrow%d{T}' % n, [In('a', n * n), Int(k)], (lambda n: lambda I, O, X: eq(O['ret'], det(M(I['a'], n))))(n), desc='cofactor expansion by minorOf along row %d == determinant' % k, nvalid=2)
             add('O1.cofactor_col%d.c%d' % (n, k), 'w_cofcol%d{T}' % n, [In('a', n * n), Int(k)], (lambda n: lambda I, O, X: eq(O['ret'], det(M(I['a'], n))))(n), desc='cofactor expansion by minorOf along column %d == determinant' % k, nvalid=2)
+    # aliasing: the right operand is the object being assigned to (m *= m reads rows it has already overwritten if done in place)
+    for n in (2, 3, 4):
+        add('O1.mmul_self_assign%d' % n, 'w_mmulself%d{T}' % n, [In('a', n * n), Out('r', n * n)], (lambda n: lambda I, O, X: meq(M(O['r'], n), mm(M(I['a'], n), M(I['a'], n))))(n), desc='m *= m (aliased operands) == m*m, %dx%d' % (n, n))
+    add('O1.multiply_static_all_aliased4', 'w_mmulstatself4{T}', [In('a', 16), Out('r', 16)], lambda I, O, X: meq(M(O['r'], 4), mm(M(I['a'], 4), M(I['a'], 4))), desc='Matrix44::multiply(t, t, t) with all three arguments the same object == t*t')
+    add('O1.qmul_self_assign', 'w_qmulself{T}', [In('a', 4), Out('r', 4)], lambda I, O, X: qmul({'a': I['a'], 'b': I['a']}, O, X), desc='q *= q (aliased operands) == q*q')
+    add('O1.cross3_self_assign', 'w_cross3self{T}', [In('a', 3), Out('r', 3)], lambda I, O, X: veq(O['r'], [rz(0)] * 3), desc='v %= v (aliased operands) == 0')
+    add('O1.v3m33_row_of_same_matrix', 'w_v3m33self_row{T}', [In('m', 9), Out('r', 3)], lambda I, O, X: veq(O['r'], vm(M(I['m'], 3)[1], M(I['m'], 3))), desc='row *= m where row is a row of m itself (aliased) == row*m')
+    add('O1.v4m44_row_of_same_matrix', 'w_v4m44self_row{T}', [In('m', 16), Out('r', 4)], lambda I, O, X: veq(O['r'], vm(M(I['m'], 4)[1], M(I['m'], 4))), desc='row *= m where row is a row of m itself (aliased) == row*m')
     import itertools
     for rs in itertools.combinations(range(3), 2):
         for cc in itertools.combinations(range(3), 2):
